@@ -177,7 +177,7 @@ func (m *Machine) release() {
 
 type FnSpec struct {
 	Name string
-	Kind string // "log": returns void; "same": returns its first argument; "val": returns fresh Ret
+	Kind string // "log": returns void; "same": returns its first argument; "pack": returns an array made of the argument slice it was given; "val": returns fresh Ret
 	Ret  Val
 }
 
@@ -206,6 +206,10 @@ func newMachine(src string, vars [][2]interface{}, fns []FnSpec, optimize bool, 
 					return args[0]
 				}
 				return &object.Null{}
+			case "pack":
+				// the arguments as an array - the very slice the engine handed over, as a host function
+				// which wraps its arguments would return it
+				return &object.Array{Elements: args}
 			case "val":
 				o, _ := f.Ret.Object()
 				return o
@@ -310,8 +314,13 @@ func (m *Machine) exec(obj interface{}) (out Outcome) {
 	return
 }
 
-// malformedResult: a result the host cannot use without crashing - nil, or a container holding a nil object
+// malformedResult: a result the host cannot use without crashing - nil, a container holding a nil object, or a
+// container which (directly or not) holds itself
 func malformedResult(o object.Object, depth int) (bad string) {
+	return malformed(o, depth, nil)
+}
+
+func malformed(o object.Object, depth int, path []object.Object) (bad string) {
 	defer func() {
 		if r := recover(); r != nil {
 			bad = fmt.Sprintf("the result cannot be inspected: %v", r)
@@ -323,22 +332,27 @@ func malformedResult(o object.Object, depth int) (bad string) {
 		}
 		return "the result holds a nil object"
 	}
-	if depth > 6 {
+	for _, anc := range path {
+		if anc == o {
+			return "the result holds itself (printing it never ends)"
+		}
+	}
+	if depth > 64 {
 		return ""
 	}
 	switch v := o.(type) {
 	case *object.Array:
 		for _, e := range v.Elements {
-			if b := malformedResult(e, depth+1); b != "" {
+			if b := malformed(e, depth+1, append(path, o)); b != "" {
 				return b
 			}
 		}
 	case *object.Hash:
 		for _, p := range v.Pairs {
-			if b := malformedResult(p.Key, depth+1); b != "" {
+			if b := malformed(p.Key, depth+1, append(path, o)); b != "" {
 				return b
 			}
-			if b := malformedResult(p.Value, depth+1); b != "" {
+			if b := malformed(p.Value, depth+1, append(path, o)); b != "" {
 				return b
 			}
 		}
